@@ -390,6 +390,11 @@ func (f simFactory) ToRESTMapper() (meta.RESTMapper, error) {
 		tm.AddSpecific(tgv.WithKind("NamespacedType"), tgv.WithResource("namespacedtype"), tgv.WithResource("namespacedtype"), meta.RESTScopeNamespace)
 		mappers = append(mappers, tm)
 	}
+	// the same kind name in another API group, kept under a resource name of its own: another object altogether
+	ogv := schema.GroupVersion{Group: "othergroup.example", Version: "v1"}
+	om := meta.NewDefaultRESTMapper([]schema.GroupVersion{ogv})
+	om.AddSpecific(ogv.WithKind("NamespacedType"), ogv.WithResource("othernamespacedtype"), ogv.WithResource("othernamespacedtype"), meta.RESTScopeNamespace)
+	mappers = append(mappers, om)
 	return mappers, nil
 }
 
